@@ -489,9 +489,60 @@ func feeRate(s string) *big.Rat {
 	return r
 }
 
+// genSweep is one BuyDirect over many open orders at once (a buyer sweeping the book): every order the buyer does
+// not own, in scrambled order, tiny partial fills, then some of the first ones again.
+func genSweep(w *World, buyer sdk.AccAddress) sdk.Msg {
+	var cands []*marketapi.SellOrder
+	for _, o := range w.S.SellOrders {
+		if !sdk.AccAddress(o.Seller).Equals(buyer) {
+			cands = append(cands, o)
+		}
+	}
+	var picked []*marketapi.SellOrder
+	for len(cands) > 0 && len(picked) < 16 {
+		i := w.intn("sweep.pick", len(cands))
+		picked = append(picked, cands[i])
+		cands = append(cands[:i], cands[i+1:]...)
+	}
+	for i, k := 0, w.intn("sweep.repeat", 4); i < k && i < len(picked); i++ {
+		picked = append(picked, picked[w.intn("sweep.again", len(picked))])
+	}
+	var orders []*markettypes.MsgBuyDirect_Order
+	for _, o := range picked {
+		denom := DenomStake
+		if m := w.S.MarketByID(o.MarketId); m != nil {
+			denom = m.BankDenom
+		}
+		ask, _ := sdk.NewIntFromString(o.AskAmount)
+		bid := sdk.NewCoin(denom, ask)
+		ample := sdk.NewCoin(denom, ask.MulRaw(10).AddRaw(1000))
+		qty := "0.000001"
+		if q := ref.MustRat(o.Quantity); q.Cmp(big.NewRat(3, 1)) > 0 && w.chance("sweep.whole", 30) {
+			qty = "1"
+		}
+		orders = append(orders, &markettypes.MsgBuyDirect_Order{SellOrderId: o.Id, Quantity: qty, BidPrice: &bid, DisableAutoRetire: o.DisableAutoRetire,
+			RetirementJurisdiction: "US-WA", MaxFeeAmount: &ample})
+	}
+	w.Flags["sweep-buy"] = true
+	if len(orders) >= 10 {
+		w.Flags["sweep-buy>=10-orders"] = true
+	}
+	return &markettypes.MsgBuyDirect{Buyer: buyer.String(), Orders: orders}
+}
+
+func btoi(b bool) int {
+	if b {
+		return 1
+	}
+	return 0
+}
+
 func genBuy(w *World) sdk.Msg {
 	n := w.count("n")
 	buyer := w.anyAcct("buyer")
+	if len(w.S.SellOrders) >= 4 && w.chance("?sweep", 6+14*btoi(w.Flags["bulk-book"])) {
+		return genSweep(w, buyer)
+	}
 	var orders []*markettypes.MsgBuyDirect_Order
 	for i := 0; i < n; i++ {
 		id, o := w.pickOrder(fmt.Sprintf("order%d", i))
